@@ -690,6 +690,36 @@ pub fn run_c16(tier: Tier, rep: &mut Report) {
             }
         }
     }
+    // two hex digits replaced by ONE two-byte character (the string keeps 64 bytes), every position,
+    // every character U+0080..U+00FF and a few beyond; and strings made only of such characters
+    let two_byte: Vec<char> = (0x80u32..=0xff).chain([0x100, 0x130, 0x3b1, 0x7ff]).filter_map(char::from_u32).collect();
+    for pfx in ["", "0x"] {
+        for i in 0..63 {
+            for c in &two_byte {
+                n += 1;
+                let s = format!("{pfx}{}{}{}", &good[..i], c, &good[i + 2..]);
+                if serde_json::from_str::<NodeId>(&serde_json::to_string(&s).unwrap()).is_ok() {
+                    bad("deserialisation accepts a non-ASCII character in place of two hex digits", format!("{s:?}"), json!({"engine":"value","text":s}));
+                }
+            }
+        }
+        for c in &two_byte {
+            n += 1;
+            let s = format!("{pfx}{}", c.to_string().repeat(32));
+            if serde_json::from_str::<NodeId>(&serde_json::to_string(&s).unwrap()).is_ok() {
+                bad("deserialisation accepts a string of 32 two-byte characters", format!("{s:?}"), json!({"engine":"value","text":s}));
+            }
+        }
+        for c in ['€', '０', '😀'] {
+            for count in [16usize, 21, 22, 32, 64] {
+                n += 1;
+                let s = format!("{pfx}{}", c.to_string().repeat(count));
+                if serde_json::from_str::<NodeId>(&serde_json::to_string(&s).unwrap()).is_ok() {
+                    bad("deserialisation accepts a string of multi-byte characters", format!("{s:?}"), json!({"engine":"value","text":s}));
+                }
+            }
+        }
+    }
     for p in ["0X", "0x0x", " 0x", "0x ", "x", "00x", "#"] {
         n += 1;
         let s = format!("{p}{good}");
@@ -797,6 +827,18 @@ pub fn run_c17(tier: Tier, rep: &mut Report) {
     for len in 0..=64usize {
         seeds.push(vec![0x00; len]);
         seeds.push(vec![0xa7; len]);
+    }
+    // wrong-length inputs with structure: seed||public key (the 64-byte keypair layout), and relatives
+    for i in 0..3u8 {
+        let seed = keccak256(&[b'k', i]);
+        let pk = rc::ed_pub(&seed);
+        seeds.push([&seed[..], &pk[..]].concat());
+        seeds.push([&pk[..], &seed[..]].concat());
+        seeds.push([&seed[..], &seed[..]].concat());
+        seeds.push([&seed[..], &pk[..31]].concat());
+        seeds.push([&seed[..], &[0u8][..]].concat());
+        seeds.push(seed[..31].to_vec());
+        seeds.push([&[0u8][..], &seed[..]].concat());
     }
     for s in &seeds {
         n += 1;
@@ -978,6 +1020,44 @@ pub fn run_c10_values(tier: Tier, rep: &mut Report) {
         let s = keccak256(&[&b"c10"[..], &i.to_be_bytes()].concat());
         if rc::scalar_in_range(&s) {
             scalars.push(s);
+        }
+    }
+    // keys whose encodings start with bytes that mean something elsewhere (SEC1 tags 00..07, 0x80, 0xff):
+    // first byte of x, first byte of y, first byte of the ed25519 key; found by stepping a counter
+    {
+        let wanted: [u8; 11] = [0x00, 0x01, 0x02, 0x03, 0x04, 0x05, 0x06, 0x07, 0x7f, 0x80, 0xff];
+        let mut need_x: Vec<u8> = wanted.to_vec();
+        let mut need_y: Vec<u8> = wanted.to_vec();
+        let mut need_e: Vec<u8> = wanted.to_vec();
+        for i in 0..20_000u32 {
+            if need_x.is_empty() && need_y.is_empty() && need_e.is_empty() {
+                break;
+            }
+            let s = keccak256(&[&b"c10-first-byte"[..], &i.to_be_bytes()].concat());
+            if !rc::scalar_in_range(&s) {
+                continue;
+            }
+            let mut take = false;
+            if let Some(pk) = rc::secp_pub(Lib::LibSecp, &s) {
+                if let Some(xy) = rc::secp_uncompressed(Lib::LibSecp, &pk) {
+                    if let Some(p) = need_x.iter().position(|b| *b == xy[0]) {
+                        need_x.remove(p);
+                        take = true;
+                    }
+                    if let Some(p) = need_y.iter().position(|b| *b == xy[32]) {
+                        need_y.remove(p);
+                        take = true;
+                    }
+                }
+            }
+            let e = rc::ed_pub(&s);
+            if let Some(p) = need_e.iter().position(|b| *b == e[0]) {
+                need_e.remove(p);
+                take = true;
+            }
+            if take {
+                scalars.push(s);
+            }
         }
     }
     let mut viols = vec![];
